@@ -1224,7 +1224,18 @@ def audit(out: OutputBuffer, aconf: AuditConf, sshv: Optional[int] = None, print
     if err is None:
         s.send_kexinit()  # Send the algorithms we support (except we don't since this isn't a real SSH connection).
 
-        packet_type, payload = s.read_packet(sshv)
+        try:
+            packet_type, payload = s.read_packet(sshv)
+        except SSH_Socket.InvalidPacketException as e:
+            out.fail(str(e))
+
+            # As with connection errors: when running against multiple targets, only this target fails.  Otherwise, write the error message to the console and exit.
+            if len(aconf.target_list) > 0:
+                return exitcodes.CONNECTION_ERROR
+            else:
+                out.write()
+                sys.exit(exitcodes.CONNECTION_ERROR)
+
         if packet_type < 0:
             try:
                 if len(payload) > 0:
